@@ -3,7 +3,7 @@
    binary64 (FloatKit.v); S0 V2 S1 S2 MX = the exact integer sums of Model.v. *)
 From Coq Require Import ZArith Reals Floats List QArith.
 From Flocq Require Import Core.
-From Dastard Require Import Common.ZX C13.Model C13.ModelFloat C13.Spec C13.FloatKit C13.Proofs.
+From Dastard Require Import Common.ZX C13.Model C13.ModelFloat C13.Spec C13.FloatKit C13.Proofs C13.ProofsQ C13.Bridge C13.Meets C13.Rms C13.Tree.
 
 (* No rounding occurs in the two accumulation loops of AnalyzeData: the float accumulators hold the
    exact integer (half-integer for the slope accumulator) sums. *)
@@ -47,3 +47,85 @@ Theorem scalars_rounding_structure :
       (Ffin (s_peak s) /\ FR (s_peak s) = RN (Rmax mu (IZR (MX ds p)) - mu)).
 Proof. exact analyze_structure. Qed.
 Print Assumptions scalars_rounding_structure.
+
+(* Exact arithmetic (Q): the closed forms that the checker evaluates are the textbook definitions of
+   Model.v — mean; 12 sum (d_i-d_0)(i-(p-1)/2) / (p(p+1)); mean of the pulse minus mu;
+   sum (d_i-mu)^2 / N (= the code's expansion S2/N - 2 mu S1/N + mu^2); max(mu, max d_i) - mu. *)
+Theorem closed_forms_are_definitions :
+  forall ds p, (0 < p)%Z -> (p < zlen ds)%Z ->
+    (mu_x ds p == mu ds p)%Q /\ (delta_x ds p == delta_def ds p)%Q /\ (avg_x ds p == avg_def ds p)%Q /\
+    (ms_x ds p == ms_def ds p)%Q /\ (peak_x ds p == peak_def ds p)%Q.
+Proof. exact closed_forms_all. Qed.
+Print Assumptions closed_forms_are_definitions.
+
+(* The delta formula equals the least-squares slope of (i, d_i), i < p, times the span p - 1. *)
+Theorem delta_is_slope_times_span :
+  forall ds p, (2 <= p <= zlen ds)%Z ->
+    (delta_def ds p == ls_slope ds p * (QZ p - 1))%Q.
+Proof. exact delta_is_slope. Qed.
+Print Assumptions delta_is_slope_times_span.
+
+(* rms_bound: the mean square as the code computes it (its expansion, one rounding per operation) is
+   within 6u (S2/N + 2|mu||S1/N| + mu^2) of the exact value S2/N - 2 mu S1/N + mu^2 (which equals
+   sum (d_i-mu)^2 / N by closed_forms_are_definitions); u = 2^-53. *)
+Theorem rms_bound :
+  forall signed p raw,
+    words_ok raw = true -> (2 <= p)%Z -> (p + 1 <= zlen raw)%Z ->
+    (p * p * 2 ^ 17 < 2 ^ 53)%Z -> ((zlen raw - p) * 2 ^ 32 < 2 ^ 53)%Z ->
+    let ds := map (interp signed) raw in
+    let N := (zlen raw - p)%Z in
+    let x0 := (IZR (S0 ds p) / IZR p)%R in
+    let x1 := (IZR (S1 ds p) / IZR N)%R in
+    let X2 := (IZR (S2 ds p) / IZR N)%R in
+    let mu := RN x0 in let m1 := RN x1 in let m2 := RN X2 in
+    let ms := RN (RN (m2 - RN (RN (2 * mu) * m1)) + RN (mu * mu)) in
+    (Rabs (ms - (X2 - 2 * x0 * x1 + x0 * x0)) <= 6 * bpow radix2 (-53) * (X2 + 2 * Rabs x0 * Rabs x1 + x0 * x0))%R.
+Proof. exact ms_r_bound. Qed.
+Print Assumptions rms_bound.
+
+(* THE SCALAR PART OF THE PROPERTY, in full: for every record in the domain the five values computed by
+   the float model pass the checker, i.e. they equal their exact definitions within the tolerances
+   stated in Spec.v (one to five roundings each; the RMS through its square). *)
+Theorem scalars_meet_definitions_all :
+  forall signed p raw,
+    words_ok raw = true -> (2 <= p)%Z -> (p + 1 <= zlen raw)%Z ->
+    (p * p * 2 ^ 17 < 2 ^ 53)%Z -> ((zlen raw - p) * 2 ^ 32 < 2 ^ 53)%Z ->
+    exists s, analyze signed p raw = Ok s /\ check_scalars (map (interp signed) raw) p s = true.
+Proof. exact scalars_meet_all. Qed.
+Print Assumptions scalars_meet_definitions_all.
+
+(* a concrete non-trivial input meets the hypotheses shared by the theorems above *)
+Example hypotheses_are_satisfiable :
+  let raw := [40000; 40001; 40003; 50000; 65535; 7]%Z in
+  words_ok raw = true /\ (2 <= 3)%Z /\ (3 + 1 <= zlen raw)%Z /\
+  (3 * 3 * 2 ^ 17 < 2 ^ 53)%Z /\ ((zlen raw - 3) * 2 ^ 32 < 2 ^ 53)%Z.
+Proof. exact hypotheses_example. Qed.
+
+(* The code before the fix (no clamp of a negative mean square): on the record 59999, 60000 x 2073 with
+   2073 presamples, which is in the domain, pulseRMS is NaN and the checker rejects it. *)
+Theorem pulse_rms_refuted_pre_fix :
+  in_domain {| i_signed := false; i_pre := 2073; i_data := nan_witness; i_proj := None |} = true /\
+  exists s, analyze_old false 2073 nan_witness = Ok s /\
+            PrimFloat.is_nan (s_rms s) = true /\
+            chk_rms (map (interp false) nan_witness) 2073 (s_rms s) = false.
+Proof. exact rms_nan_before_fix. Qed.
+Print Assumptions pulse_rms_refuted_pre_fix.
+
+(* projection_tree_bound: a dot product sum_i a_i b_i evaluated in binary64 with every product rounded
+   once and the rounded products added in ANY order (t ranges over all binary summation trees; every
+   addition rounded once) is within  gamma_n sum |a_i b_i| + n eta  of the exact value, n = number of
+   products, gamma_n = n u / (1 - n u), u = 2^-53, eta = 2^-1074.  This is the per-row tolerance of the
+   checker (coef_row_ok) for the model coefficients P d, and the a_i term of the residual tolerance. *)
+Theorem projection_tree_bound :
+  forall t : tree,
+    let n := INR (leaves t) in
+    (n * bpow radix2 (-53) <= / 2)%R ->
+    (Rabs (evalf t - exact t)
+     <= n * bpow radix2 (-53) / (1 - n * bpow radix2 (-53)) * mag t + n * bpow radix2 (-1074))%R.
+Proof. exact tree_bound_gamma. Qed.
+Print Assumptions projection_tree_bound.
+
+Example tree_hypothesis_is_satisfiable :
+  let t := Node (Leaf 3 (/ 7)) (Node (Leaf (-5) 11) (Leaf (bpow radix2 (-40)) 65535)) in
+  (INR (leaves t) * bpow radix2 (-53) <= / 2)%R.
+Proof. exact tree_example. Qed.
